@@ -14,8 +14,10 @@
 #define MAXF 12
 static parsec_task_class_t tc;
 static parsec_flow_t flows[MAXF];
-static parsec_dep_t deps[MAXF];
-static parsec_expr_t gexpr[MAXF], fexpr;
+#define MAXD 4
+static parsec_dep_t deps[MAXF], xdeps[MAXF][MAXD];
+static parsec_expr_t gexpr[MAXF], fexpr, texpr, xgexpr[MAXF][MAXD];
+static int xgather[MAXF][MAXD];
 static parsec_task_t task;
 static volatile parsec_dependency_t word;
 static int mode_mask, nthreads, relbit[CTL_MAXT];
@@ -25,6 +27,13 @@ static int gather_k[MAXF];
 #define GF(i) static int32_t gfun##i(const parsec_taskpool_t *tp, const parsec_assignment_t *l) { (void)tp; (void)l; return gather_k[i]; }
 GF(0) GF(1) GF(2) GF(3) GF(4) GF(5) GF(6) GF(7) GF(8) GF(9) GF(10) GF(11)
 static parsec_expr_op_int32_inline_func_t gfuns[MAXF] = { gfun0, gfun1, gfun2, gfun3, gfun4, gfun5, gfun6, gfun7, gfun8, gfun9, gfun10, gfun11 };
+/* one gather function per (flow, dep) slot */
+#define XG(i,j) static int32_t xg##i##_##j(const parsec_taskpool_t *tp, const parsec_assignment_t *l) { (void)tp; (void)l; return xgather[i][j]; }
+#define XGR(i) XG(i,0) XG(i,1) XG(i,2) XG(i,3)
+XGR(0) XGR(1) XGR(2) XGR(3) XGR(4) XGR(5) XGR(6) XGR(7) XGR(8) XGR(9) XGR(10) XGR(11)
+#define XGP(i) { xg##i##_0, xg##i##_1, xg##i##_2, xg##i##_3 }
+static parsec_expr_op_int32_inline_func_t xgfuns[MAXF][MAXD] = { XGP(0), XGP(1), XGP(2), XGP(3), XGP(4), XGP(5), XGP(6), XGP(7), XGP(8), XGP(9), XGP(10), XGP(11) };
+static int32_t ftrue(const parsec_taskpool_t *tp, const parsec_assignment_t *l) { (void)tp; (void)l; return 1; }
 static int32_t ffalse(const parsec_taskpool_t *tp, const parsec_assignment_t *l) { (void)tp; (void)l; return 0; }
 
 static int build(int mask, int nf, char **fl)
@@ -32,6 +41,8 @@ static int build(int mask, int nf, char **fl)
     int in_in = 0, gather = 0, n = 0;
     memset(&tc, 0, sizeof tc); memset(flows, 0, sizeof flows); memset(deps, 0, sizeof deps);
     fexpr.op = PARSEC_EXPR_OP_INLINE; fexpr.u_expr.v_func.func.inline_func_int32 = ffalse;
+    texpr.op = PARSEC_EXPR_OP_INLINE; texpr.u_expr.v_func.func.inline_func_int32 = ftrue;
+    memset(xdeps, 0, sizeof xdeps);
     for(int i = 0; i < nf; i++) {
         parsec_flow_t *f = &flows[i]; parsec_dep_t *d = &deps[i];
         f->name = "f"; f->flow_index = (uint8_t)i; f->sym_type = PARSEC_SYM_IN;
@@ -47,6 +58,33 @@ static int build(int mask, int nf, char **fl)
             d->ctl_gather_nb = &gexpr[i]; gather = 1; n += gather_k[i];
         }
         else if( !strcmp(fl[i], "CN") ) { f->flow_flags = PARSEC_FLOW_ACCESS_NONE; d->cond = &fexpr; in_in = 1; }
+        else if( !strncmp(fl[i], "X:", 2) || !strncmp(fl[i], "K:", 2) ) {
+            /* several guarded input deps: X:<g><T|L>,...  (data)   K:<g><v>,...  (control; v = 0 plain, k+1 gather of k) */
+            int isdata = fl[i][0] == 'X', nd = 0, decided = 0; char *q = fl[i] + 2;
+            f->flow_flags = isdata ? (PARSEC_FLOW_ACCESS_READ | PARSEC_FLOW_HAS_IN_DEPS) : PARSEC_FLOW_ACCESS_NONE;
+            memset(f->dep_in, 0, sizeof f->dep_in);
+            while( *q && nd < MAXD ) {
+                parsec_dep_t *xd = &xdeps[i][nd];
+                char g = *q++;
+                xd->belongs_to = f; xd->task_class_id = 1;
+                xd->cond = (g == 't') ? &texpr : (g == 'f') ? &fexpr : NULL;
+                if( g != 'n' && g != 't' && g != 'f' ) return -1;
+                if( isdata ) {
+                    if( *q == 'L' ) xd->task_class_id = PARSEC_LOCAL_DATA_TASK_CLASS_ID; else if( *q != 'T' ) return -1;
+                    if( g != 'f' && !decided ) { decided = 1; if( *q == 'T' ) { if( mask ) relbit[n] = i; n++; } else in_in = 1; }
+                    q++;
+                } else {
+                    int v = (int)strtol(q, &q, 10);
+                    if( v > 0 ) { if( mask ) return -1; xgather[i][nd] = v - 1; xgexpr[i][nd].op = PARSEC_EXPR_OP_INLINE;
+                                  xgexpr[i][nd].u_expr.v_func.func.inline_func_int32 = xgfuns[i][nd]; xd->ctl_gather_nb = &xgexpr[i][nd]; gather = 1; }
+                    if( g != 'f' ) { if( mask ) { if( decided ) return -1; relbit[n] = i; n++; } else n += (v > 0 ? v - 1 : 1); decided = 1; }
+                }
+                f->dep_in[nd++] = xd;
+                if( *q == ',' ) q++;
+            }
+            if( !decided ) { if( isdata ) return -1; in_in = 1; }   /* data flow without an applicable input is ill formed */
+            in_in = 1;  /* guards are evaluated per instance: the class has the IN-IN flag */
+        }
         else if( !strcmp(fl[i], "W") ) { f->flow_flags = PARSEC_FLOW_ACCESS_WRITE | PARSEC_FLOW_HAS_IN_DEPS; f->dep_in[0] = NULL; in_in = 1; }
         else return -1;
         tc.in[i] = f;
